@@ -102,6 +102,10 @@ def make_cases(ctx):
                 yield "hs-%04x-%d%d-%s-%s" % (sid, ver[0], ver[1], direction,
                                               how), dict(
                     mode="hs", sid=sid, ver=ver, dir=direction, how=how)
+    for where in ("first", "second"):
+        for skey in (None, "rsa"):
+            yield "early-%s-%s" % (where, skey), dict(mode="early",
+                                                      where=where, skey=skey)
     # connection level
     n = ctx.pick(40, 600)
     for i in range(n):
@@ -681,6 +685,99 @@ def run_hs_inject(ctx, cid, P):
                                            outcome(vt)))
 
 
+def run_early(ctx, cid, P):
+    """the client's ClientHello advertises early_data (with a PSK), which
+    entitles the server to skip undecryptable records *until the client's
+    first protected handshake record* (RFC 8446 4.2.10) - not afterwards:
+    a forged record after the handshake must be fatal as ever"""
+    from vt import creds
+    from vt.pair import Flavor, ver_settings
+    from tlslite.messages import ClientHello
+    from tlslite.extensions import TLSExtension
+    from tlslite.constants import ExtensionType
+    rng = ctx.rng
+    psk = (creds.PSK_ID, creds.PSK_SECRET, "sha256")
+    cs = ver_settings((3, 4), pskConfigs=[psk])
+    ss = ver_settings((3, 4), pskConfigs=[psk])
+    fl = Flavor("psk", skey=P["skey"], cset=cs, sset=ss)
+    st = {"armed": False, "done": False, "n": 0}
+    where = P["where"]
+
+    def mitm(rec, idx):
+        if not st["armed"] or rec.dir != "c2s" or rec.type != 23:
+            return None
+        st["n"] += 1
+        if st["n"] == (1 if where == "first" else 2) and not st["done"]:
+            st["done"] = True
+            forged = bytes(rec.raw[:3]) + (40).to_bytes(2, "big") + \
+                mon.keystream(cid, 40)
+            return forged + rec.raw
+        return None
+    orig = ClientHello.create
+
+    def create(self, *a, **kw):
+        ret = orig(self, *a, **kw)
+        if self.extensions is not None:
+            ext = TLSExtension(extType=ExtensionType.early_data).create(
+                bytearray(0))
+            # pre_shared_key has to stay last
+            self.extensions.insert(max(0, len(self.extensions) - 1), ext)
+        return ret
+    ClientHello.create = create
+    try:
+        p = Pair(mitm=mitm)
+        tc, ts = p.handshake(fl)
+    finally:
+        ClientHello.create = orig
+    ctx.ev()
+    if tc.status != "done" or ts.status != "done":
+        ctx.inconc("early_data-offering PSK handshake failed in %s: %r %r" % (
+            cid, tc.exc, ts.exc))
+        return
+    ctx.count("early_offer_handshakes")
+    st["armed"] = True
+    f = mon.Fifo(cid)
+    for n in (20, 300, 5):
+        tw = drive.Task("w", drive.awrite(p.c, f.next_write(n)), p.csock)
+        drive.run([tw], p.link)
+    got = bytearray()
+    exc = None
+    for _ in range(8):
+        tr = drive.Task("r", drive.aread(p.s, None, 1), p.ssock)
+        drive.run([tr], p.link)
+        if tr.status != "done":
+            exc = tr
+            break
+        if not tr.result:
+            break
+        got += tr.result
+    key = {"layer": "conn", "mut": "forged_after_early_data_offer",
+           "fam": "tls13", "ckind": "gcm"}
+    W = {"case": cid, "where": where, "got": bytes(got)[:80],
+         "records": [r.brief() for r in p.link.records[-8:]]}
+    ctx.count("conn_trials")
+    if not st["done"]:
+        ctx.count("conn_not_armed")
+        return
+    bad = f.check_read(bytes(got))
+    if bad is not None:
+        ctx.violation(dict(key, clause="tampered_data_delivered",
+                           fifo=bad["kind"]), W, "")
+    elif exc is None or not (exc.status == "exc" and
+                             isinstance(exc.exc, E.TLSLocalAlert)):
+        ctx.violation(dict(key, clause="tamper_not_detected",
+                           status=str(outcome(exc)) if exc else "delivered"),
+                      W, "a forged record after the handshake was skipped: "
+                      "the server read %d bytes and %r" % (
+                          len(got), exc and exc.exc))
+    else:
+        ctx.count("conn_rejected")
+        if not p.s.closed:
+            ctx.violation(dict(key, clause="not_closed"), W, "")
+    ctx.cell("cell", "conn|tls13|early_offer|%s|%s" % (
+        where, outcome(exc) if exc else "delivered"))
+
+
 def run_conn(ctx, cid, P):
     """MITM tampers with one application record between open connections"""
     su = suites.TABLE[P["sid"]]
@@ -879,6 +976,8 @@ def run(ctx):
             run_rl(ctx, cid, P)
         elif P["mode"] == "hs":
             run_hs_inject(ctx, cid, P)
+        elif P["mode"] == "early":
+            run_early(ctx, cid, P)
         else:
             run_conn(ctx, cid, P)
 
